@@ -153,6 +153,7 @@ static Node *funcall(Token **rest, Token *tok, Node *node);
 static Node *unary(Token **rest, Token *tok);
 static Node *primary(Token **rest, Token *tok);
 static Token *parse_typedef(Token *tok, Type *basety);
+static bool is_variably_modified(Type *ty);
 static bool is_function(Token *tok);
 static Token *function(Token *tok, Type *basety, VarAttr *attr);
 static Token *global_variable(Token *tok, Type *basety, VarAttr *attr);
@@ -686,6 +687,15 @@ static Type *pointers(Token **rest, Token *tok, Type *ty) {
   return ty;
 }
 
+// Copies the variably modified part of a type.
+static Type *copy_vla_type(Type *ty) {
+  if (!is_variably_modified(ty))
+    return ty;
+  ty = copy_type(ty);
+  ty->base = copy_vla_type(ty->base);
+  return ty;
+}
+
 // declarator = pointers ("(" ident ")" | "(" declarator ")" | ident) type-suffix
 static Type *declarator(Token **rest, Token *tok, Type *ty) {
   ty = pointers(&tok, tok, ty);
@@ -707,7 +717,16 @@ static Type *declarator(Token **rest, Token *tok, Type *ty) {
     tok = tok->next;
   }
 
+  Type *base = ty;
   ty = type_suffix(rest, tok, ty);
+
+  // A variably modified type that comes from the declaration specifiers
+  // (a typedef name or typeof) is shared by every object declared with
+  // it. The variable that holds the run-time size of an array belongs to
+  // one object, so give each declarator its own copy of such a type.
+  if (ty == base && is_variably_modified(ty))
+    ty = copy_vla_type(ty);
+
   ty->name = name;
   ty->name_pos = name_pos;
   return ty;
